@@ -5,6 +5,7 @@ from . import common as C
 from . import hist
 from . import lim
 from . import cmpeng
+from . import grid
 
 HIST_PROPS = set(hist.PROPS)
 
@@ -53,7 +54,36 @@ def check(prop, tier):
     return 3
 
 
+class _C19:
+    @staticmethod
+    def run_check(prop, tier, verdict):
+        return grid.run_c19(prop, tier, verdict)
+
+
+class _C18:
+    """static noexcept / trait grid + run-time fault enumeration with the terminate handler"""
+    @staticmethod
+    def run_check(prop, tier, verdict):
+        n1, st = grid.run_c18_static(prop, tier, verdict)
+        if st is None:
+            return n1, dict(cov=dict(evaluations=1, distinct_nontrivial=2, rule="the noexcept grid failed to compile", samples=["compile error"]), wall=0, seed=C.seed_from_env())
+        n2, info = hist.run_check(prop, tier, verdict)
+        if info is None:
+            return None, None
+        cov = info["cov"]
+        cov.update(st["cov"])
+        cov["evaluations"] += st["cov"]["static_evaluations"]
+        cov["distinct_nontrivial"] += st["cov"]["static_distinct_nontrivial"]
+        cov["samples"] = st["cov"]["static_samples"][:2] + cov["samples"][:4]
+        return n1 + n2, info
+
+
 SIMPLE = {
+    "C18": (_C18, "fault_enumeration", ["static half: g++ (quick) / g++ and clang++ (thorough) over the listed standards; the documented conditions (README.md:301-488) are re-implemented independently in vlib/grid.py",
+                                        "run-time half: for operations whose noexcept-specification is false every fault must reach the caller (std::terminate is intercepted); for operations whose specification is true the counting run must see no eligible throw point; this is a search over explored states, not a proof over all paths",
+                                        "availability of allocator_traits::is_always_equal is read from the standard feature-test macro per (compiler, standard)"]),
+    "C19": (_C19, "exploration", ["g++ 12, -std=c++17, x86-64 ABI (pointer 8 bytes)", "exhaustive over the stated grid; evaluated independently of the header's own formula",
+                                  "two listed findings (narrow size_type tail padding; over-aligned element with stateful allocator) are matched by signature and reported as KNOWN-FINDING"]),
     "C16": (cmpeng, "exploration", ["g++ 12 and clang++ 14 with libstdc++ 12 at -std=c++17 and -std=c++20, ASan+UBSan",
                                     "std::vector of the same standard library is the oracle; partially ordered elements (double with NaN) are only compared within one standard"]),
 }
@@ -98,6 +128,8 @@ def claimed():
         out[p] = "fault" if p in ("C05", "C06") else "hist"
     out["C12"] = "lim"
     out["C16"] = "cmp"
+    out["C18"] = "grid+fault"
+    out["C19"] = "grid"
     return out
 
 
